@@ -89,6 +89,10 @@ def build_case(r, art, k, stream):
                 add_const(tin)
             opids.append(row)
             continue
+        if "TILE" in str(cmd.get("padding_type") or ""):
+            # tile padding (half-pixel bilinear resize): the IFM tiles are arranged so that the rows / columns beyond an edge
+            # read the edge itself - one byte at two logical positions, which the (object, offset) identities cannot express
+            raise Unsupported("tile padding (edge replication through the IFM tiles)")
         for t in (cmd["ifm"], cmd["ifm2"], cmd["ofm"]):
             note(t)
         # ifm
